@@ -15,6 +15,7 @@ import (
 	"path/filepath"
 	"runtime"
 	"runtime/debug"
+	"strings"
 	"time"
 	"unsafe"
 
@@ -124,6 +125,23 @@ func main() {
 		add(gen.Pair{S: dec, T: []byte("abababababac")})
 		add(gen.Pair{S: append(dec, "\xe4\xb8\x96K"...), T: []byte("\xe4\xb8\x96\xe2\x84\xaa")})
 	}
+	// width-mismatch corners: the needle spells every code point of the haystack with a wider fold partner (Kelvin sign
+	// for k/K, long s for s/S, encoded U+FFFD for an ill-formed byte), so it is up to three times as long as the text it
+	// matches: the code takes its length-gate branches (containsKelvin and friends) with needles beyond any small
+	// stack buffer
+	for n := 1; n <= 48; n++ {
+		if scale == 1 && n > 16 && n%4 != 0 {
+			continue
+		}
+		for _, w := range [][2]string{{"k", "\u212a"}, {"K", "\u212a"}, {"s", "\u017f"}, {"\xff", "\ufffd"}, {"\xc0", "\ufffd"}} {
+			narrow, wide := strings.Repeat(w[0], n), strings.Repeat(w[1], n)
+			add(gen.Pair{S: []byte(narrow), T: []byte(wide)})
+			add(gen.Pair{S: []byte(wide), T: []byte(narrow)})
+			add(gen.Pair{S: []byte("ab" + narrow), T: []byte(wide)})
+			add(gen.Pair{S: []byte(narrow + "yz"), T: []byte(wide)})
+			add(gen.Pair{S: []byte(narrow), T: []byte(wide + w[1])})
+		}
+	}
 	runs := 20
 	evals, nontriv := 0, 0
 	distinct := map[string]bool{}
@@ -168,7 +186,7 @@ func main() {
 	cov := map[string]any{
 		"evaluations":         evals,
 		"distinct_nontrivial": nontriv,
-		"rule":                "every exported function x argument tuples from the embedded/random/long-needle families plus multi-kilobyte needles/haystacks; Mallocs delta of 20 calls (min of 3 repeats, GOMAXPROCS=1, GC off); distinct = (function, len s, len t), non-trivial = both arguments non-empty",
+		"rule":                "every exported function x argument tuples from the embedded/random/long-needle families plus multi-kilobyte needles/haystacks and the width-mismatch corners (needle = the haystack respelled with Kelvin sign / long s / U+FFFD, 1..48 code points); Mallocs delta of 20 calls (min of 3 repeats, GOMAXPROCS=1, GC off); distinct = (function, len s, len t), non-trivial = both arguments non-empty",
 		"samples":             samples,
 		"functions":           perFn,
 		"max_len": func() int {
